@@ -252,6 +252,49 @@ def h_vod_time(sx, name):
     sx.note('expect', {'refused': refused})
 
 
+def _xref_ref(name, md_ref):
+    """a stream timing reference that is *not* this representation: same timescale and nominal
+    segment duration, its own media duration"""
+    from dashlive.mpeg.dash.reference import StreamTimingReference
+    j = common.layouts()[name]
+    return StreamTimingReference(media_name=name + '_ref', media_duration=md_ref,
+                                 num_media_segments=len(j['segments']) - 1,
+                                 segment_duration=j['segment_duration'], timescale=j['timescale'])
+
+
+def h_vod_xref(sx, name):
+    """a representation whose stored duration differs from the stream timing reference (symbolic
+    reference duration inside the representation's last segment): the vod SegmentTimeline still
+    lists the *stored* segments - count, start, every duration, total = stored media duration"""
+    import json
+    from pysx.core import sx_and
+    from dashlive.mpeg.dash.representation import Representation
+    from dashlive.mpeg.dash.timing import DashTiming
+    j = json.loads(json.dumps(common.layouts()[name]))
+    rep = Representation(**j)
+    N = rep.num_media_segments
+    stored = [s['duration'] for s in j['segments'][1:]]
+    md = sum(stored)
+    md_ref = sx.int('ref_media_duration', md - stored[-1] + 1, md)
+    timing = DashTiming(tk.ast_real(), _xref_ref(name, md_ref), common.live_opts(mode='vod'))
+    rep.set_dash_timing(timing)
+    try:
+        entries = tk.expand_timeline(rep.generateSegmentTimeline())
+    except Exception as e:
+        sx.fail('C06.exc', detail={'raised': type(e).__name__, 'msg': str(e)[:120]})
+        return
+    sx.prove(True, 'C06.exc')
+    conds = [len(entries) == N]
+    t = 0
+    for k, (tk_, dk, mod) in enumerate(entries[:N]):
+        conds.append(tk_ == t)
+        conds.append(dk == stored[k])
+        t = t + dk
+    conds.append(t == md)
+    sx.prove(sx_and(*conds), 'C06.time', detail={'entries': entries[-3:], 'N': N, 'stored_last': stored[-1],
+                                                  'ref_media_duration': md_ref, 'stored_media_duration': md})
+
+
 def h_duration(sx, ts):
     """mediaPresentationDuration text parses back to the reference duration within 0.5 ms"""
     from pysx import dt
@@ -286,6 +329,7 @@ def instances(tier):
         out.append({'name': f'vod-number[{name}]', 'fn': h_vod_number, 'params': {'name': name}})
         out.append({'name': f'vod-time[{name}]', 'fn': h_vod_time, 'params': {'name': name},
                     'opts': {'fork_limit': 200}})
+        out.append({'name': f'vod-xref[{name}]', 'fn': h_vod_xref, 'params': {'name': name}})
     for ts in ([240, 44100, 90000] if tier == 'quick' else [1, 240, 1000, 44100, 48000, 90000, 10000000]):
         out.append({'name': f'duration[ts={ts}]', 'fn': h_duration, 'params': {'ts': ts},
                     'opts': {'fork_limit': 1100, 'max_paths': 100000}})
@@ -396,6 +440,22 @@ def replay(case):
                     return {'violated': True, 'observed': {'gap_at': tj}}
                 t += dj
             return {'violated': len(entries) != N or t != ref_tc, 'observed': {'entries': len(entries), 'sum': t, 'ref': ref_tc}}
+        if inst.startswith('vod-xref['):
+            import json
+            from dashlive.mpeg.dash.representation import Representation
+            from dashlive.mpeg.dash.timing import DashTiming
+            j = json.loads(json.dumps(common.layouts()[params['name']]))
+            rep = Representation(**j)
+            stored = [s['duration'] for s in j['segments'][1:]]
+            timing = DashTiming(tk.ast_real(), _xref_ref(params['name'], inputs['ref_media_duration']),
+                                common.live_opts(mode='vod'))
+            rep.set_dash_timing(timing)
+            entries = tk.expand_timeline(rep.generateSegmentTimeline())
+            got = [d for (_t, d, _m) in entries]
+            starts_ok = all(entries[k][0] == sum(stored[:k]) for k in range(min(len(entries), len(stored))))
+            return {'violated': got != stored or not starts_ok,
+                    'observed': {'ref_media_duration': inputs['ref_media_duration'], 'stored_media_duration': sum(stored),
+                                 'timeline_tail': got[-3:], 'stored_tail': stored[-3:], 'entries': len(got), 'N': len(stored)}}
         # duration
         from fractions import Fraction
         from dashlive.mpeg.dash.reference import StreamTimingReference
